@@ -59,6 +59,7 @@ type lifeScenario struct {
 	shutdownArmed atomic.Bool
 	shutdownFired atomic.Bool
 	backlogMode   bool
+	triggerVia    string   // how the connection whose OnClose asks for shutdown gets closed
 	preArmed      sync.Map // peer key -> struct{}: bystander connections the harness itself closes at once
 	tickShutdown  atomic.Bool
 }
@@ -103,6 +104,17 @@ func (s *lifeScenario) onOpen(cs *connState, c gnet.Conn) ([]byte, gnet.Action) 
 		cs.armedLocal.Store(true)
 		cs.armedRemote.Store(true)
 		d.plan = "quiet"
+		if s.shutdownFrom == "OnClose" && !s.backlogMode && s.shutdownArmed.Load() {
+			// the connection provoked by the trigger: its OnClose returns Shutdown, whichever way the close comes about
+			switch s.triggerVia {
+			case "writeFail":
+				d.plan = "writeFail"
+			case "action":
+				d.plan, d.k = "actTraffic", 1
+			case "loopClose":
+				d.plan, d.k = "loopClose", 1
+			}
+		}
 	}
 	s.loopSet(cs.loopIdx).Store(cs.tok, cs)
 	if s.shutdownFrom == "OnOpen" && s.shutdownArmed.Load() && !s.shutdownFired.Swap(true) {
@@ -378,12 +390,15 @@ func (cn *canary) finish() (damaged int32, detail string) {
 	return cn.damaged.Load(), detail
 }
 
+var triggerVias = []string{"fin", "writeFail", "action", "loopClose", "connClose"}
+
 type lifeOpts struct {
 	npeers       int
 	canaries     int
 	shutdownFrom string // Engine.Stop, Stop, OnOpen, OnTraffic, OnClose, OnTick, Client.Stop
 	moment       string // idle, connect-storm, traffic, async-pending
 	ticker       bool
+	via          string // shutdownFrom OnClose: how the connection whose OnClose asks for shutdown gets closed
 }
 
 // runLifeCase runs one engine life with a mix of close causes and all end-of-life checks.
@@ -391,6 +406,10 @@ func runLifeCase(c cfg, seed uint64, o lifeOpts, keys map[string]struct{}) (eval
 	r := vlib.NewRand(seed)
 	s := &lifeScenario{c: c, seed: seed, keys: keys}
 	s.backlogMode = o.moment == "async-backlog" && (o.shutdownFrom == "OnTraffic" || o.shutdownFrom == "OnClose")
+	s.triggerVia = triggerVias[vlib.Mix(seed^0x7719)%uint64(len(triggerVias))]
+	if o.via != "" {
+		s.triggerVia = o.via
+	}
 	if o.shutdownFrom == "OnOpen" || o.shutdownFrom == "OnTraffic" || o.shutdownFrom == "OnClose" || o.shutdownFrom == "OnTick" {
 		s.shutdownFrom = o.shutdownFrom
 	}
@@ -676,12 +695,21 @@ func runLifeCase(c cfg, seed uint64, o lifeOpts, keys map[string]struct{}) (eval
 				if conn, err := dialPeerPre(life.dialNet, life.dialAddr, &s.preArmed); err == nil {
 					key := addrKey(conn.LocalAddr().String())
 					_, _ = conn.Write([]byte("t"))
-					time.Sleep(2 * time.Millisecond)
+					if s.triggerVia == "writeFail" {
+						setLinger0(conn) // the handler's Write fails: the close (and its Shutdown) comes out of conn.write
+					} else {
+						time.Sleep(2 * time.Millisecond)
+					}
 					if cs := mon.lookupKey(key); cs != nil {
 						cs.armedRemote.Store(true)
 						cs.armedLocal.Store(true)
+						if s.triggerVia == "connClose" {
+							_ = cs.c.Close()
+							waitCond(time.Second, func() bool { return atomic.LoadInt32(&cs.state) == 2 })
+						}
 					}
 					closePeer(conn)
+					s.key(c.class() + "|shutdown-from-OnClose-via|" + s.triggerVia)
 				}
 				time.Sleep(time.Millisecond)
 			}
